@@ -360,6 +360,10 @@ func (h *c17) runOp(op string) {
 		h.runConfigOp(op)
 		return
 	}
+	if strings.HasPrefix(op, "msm ") {
+		h.runConfigMergeOp(op)
+		return
+	}
 	if !strings.HasPrefix(op, "ms ") {
 		r.Emit(op, "bad-op", false)
 		return
@@ -634,6 +638,11 @@ func MainC17() {
 	for i := 0; i < r.N(3, 30); i++ {
 		r.Count("gen:config")
 		h.runOp("msc " + configFileSet(r.Rng).Sexp())
+	}
+	// CONFIG entries merged in from subincluded files, every order of the packages
+	for i := 0; i < r.N(60, 600); i++ {
+		r.Count("gen:config-merge")
+		h.emitConfigMerge(configMergeFileSet(r.Rng))
 	}
 	for i := 0; i < r.N(220, 2500); i++ {
 		npkg := 2
